@@ -1036,13 +1036,26 @@ def _val_to_numpy(
             arrow,
             pa.ChunkedArray,
         )
-    except TypeError:
+    except (TypeError, pa.ArrowInvalid):
+        # e.g. booleans, or object data that Arrow cannot infer a type for
         is_chunked = False
 
     if is_chunked:
-        val_list = [chunk.to_numpy() for chunk in arrow.chunks]
+        try:
+            val_list = [chunk.to_numpy() for chunk in arrow.chunks]
+        except pa.ArrowInvalid:
+            # chunks with nulls (or strings) cannot be viewed, they have to be copied;
+            # all of them, to one dtype, so that the chunks stay interchangeable
+            val_list = [
+                np.array(chunk.to_numpy(zero_copy_only=False)) for chunk in arrow.chunks
+            ]
+            common = np.result_type(*[v.dtype for v in val_list])
+            val_list = [v.astype(common, copy=False) for v in val_list]
     elif hasattr(val, "to_numpy"):
-        val_list = [val.to_numpy()]  # type: ignore
+        try:
+            val_list = [val.to_numpy()]  # type: ignore
+        except pa.ArrowInvalid:
+            val_list = [val.to_numpy(zero_copy_only=False)]  # type: ignore
     else:
         val_list = [np.asarray(val)]
 
